@@ -1323,6 +1323,25 @@ pub fn gen_case(plan: &Plan, tier: Tier, seed: u64, idx: u64) -> Case {
     };
     let _ = tier;
     let opts = if systematic && rng.chance(3, 4) { OptVec::default() } else { gen_opts(&mut rng) };
+    if !systematic && rng.chance(1, 25) && !entry.is_validating() && entry != REntry::ReadPlain {
+        // the cap is crossed inside one long token: the pull bound must hold there too
+        let n = *rng.pick(&[40_000usize, 100_000, 250_000]);
+        let d = match rng.below(4) {
+            0 => format!("k: {}\n", "x".repeat(n)),
+            1 => format!("k: \"{}\"\n", "é".repeat(n / 2)),
+            2 => format!("# {}\nk: 1\n", "c".repeat(n)),
+            _ => format!("k: |\n  {}\n", "y".repeat(n)),
+        };
+        return Case::C10R(ReaderCase {
+            doc_spans: vec![(0, d.trim_end().len())],
+            doc: Doc::from_str(&d),
+            target: Target::Json,
+            entry,
+            opts: OptVec::default(),
+            chunking,
+            sel: Sel::Cap(Some(*rng.pick(&[0usize, 100, 1000, 9000]))),
+        });
+    }
     if let Sel::Endless { cap, .. } = &sel {
         // Endless input must continue the document (or the stream) validly, so that the parse cannot end
         // before the cap is met: (document, repeated fragment) pairs by construction.
